@@ -653,6 +653,23 @@ fn null_logger() {
         fn flush(&self) {}
     }
     static NULL: Null = Null;
+    // debugging aid for replays (never used by checks): VERIF_LOG=1 prints the server's own log
+    struct Stderr;
+    impl log::Log for Stderr {
+        fn enabled(&self, _: &log::Metadata) -> bool {
+            true
+        }
+        fn log(&self, r: &log::Record) {
+            eprintln!("[server {}] {}", r.level(), r.args());
+        }
+        fn flush(&self) {}
+    }
+    static STDERR: Stderr = Stderr;
+    if std::env::var_os("VERIF_LOG").is_some() {
+        let _ = log::set_logger(&STDERR);
+        log::set_max_level(log::LevelFilter::Debug);
+        return;
+    }
     let _ = log::set_logger(&NULL);
     log::set_max_level(log::LevelFilter::Off);
 }
